@@ -182,6 +182,10 @@ impl DatabaseHeader {
     pub(in crate::tree_store::page_store) fn verif_primary_index(&self) -> usize {
         self.primary_slot
     }
+    pub(in crate::tree_store::page_store) fn verif_set_counts(&mut self, full: u32, trailing: u32) {
+        self.full_regions = full;
+        self.trailing_partial_region_pages = trailing;
+    }
 }
 
 // ---- C12: select_primary_slot equals the documented table --------------------------------
